@@ -10,7 +10,8 @@ import lib
 ID = 'C14'
 GEN_FILES = ['T_require', 'T_files_build', 'T_lexer', 'T_parser']
 COQ_PROPERTY = 'theories/Properties/C14.vo'
-COQ_EXTRA = ['theories/Proofs/ReqEmbedInstProofs.vo', 'theories/Proofs/SpecLexChunk.vo']
+COQ_EXTRA = ['theories/Proofs/ReqEmbedInstProofs.vo', 'theories/Proofs/SpecLexChunk.vo',
+             'theories/Proofs/ReqEmbedEchoGood.vo', 'theories/Proofs/ReqEmbedSpecTokens.vo']
 MODEL = ('ExC14', 'c14_main.ml')
 MONITOR = ('MonC14', 'c14_mon_main.ml')
 CASE_TIMEOUT = 60
@@ -31,23 +32,21 @@ ASSUMPTIONS = [
     'token, as it silently does after a `return`) is outside C14 (that is C07 / C08); such runs are compared with '
     'the model but not judged',
 ]
-PARTIAL = ('C14_reference_chunking / C14_reference_final_lf prove the chunking property of the reference tokenizer, and '
-           'C14_tokens_spec_partial states the token-level clause for the concrete stack against that tokenizer with the '
-           'constants computed; its one remaining hypothesis is the token-faithful echo of the lexer model (C06), which '
-           'C14_echo_predicate_suffices reduces to C06\'s own predicate holds_C06 on (text, echo) + no lone CR in the echo '
-           '(C14_tokens_spec_partial_c06). '
-           'The token-level clause (significant tokens of the result = header ++ package blocks ++ loader ++ main '
-           'tokens, package bodies intact apart from the stripped game-loop functions) is proved only RELATIVE to '
-           'hypotheses that are visible in the statements and not discharged for the concrete stack: '
-           'C14_tokens_partial / C14_tokens_partial_now assume the reference tokenizer\'s chunking property (a text '
-           'ending in a newline lexes independently of what follows; a final newline adds no token: C07\'s chunking '
-           'lemma) and the lexer\'s token-faithful echo (C06: the echoed text has the source\'s tokens); '
-           'C14_block_tokens_partial additionally assumes that the stripping step acts on significant tokens as the '
-           'removal of the game-loop definitions (unconditionally proved of the concrete stripping: it only removes '
-           'tokens, C14_strip_only_removes). The clause itself is checked on every run by the extracted monitor '
-           'holds_C14. C14_structure_bytes / C14_unstripped_block assume a BYTE-faithful echo, which picotool\'s '
-           'lexer has only for sources whose quoted strings are spelled canonically (C06: other strings are re-spelled '
-           'with the same denotation).')
+PARTIAL = ('The token-level clause is a theorem (C14_tokens_spec: tokens of the cart = package preamble ++ per table entry '
+           '(header ++ echoed package ++ end) ++ require() preamble ++ the main program\'s tokens, unchanged; reference '
+           'tokenizer, concrete stack, NO hypothesis about lexer, chunking, echo or constants) for a main program of bytes '
+           'in the dialect and table entries meeting three per-entry conditions (header line and echoed code in the dialect, '
+           'echoed lines of bytes all ending in LF). C14_pkg_conditions_unstripped proves those conditions, and that the '
+           'echoed code has exactly the file\'s tokens, for packages embedded with {use_game_loop=true} from byte files of '
+           'the dialect that are empty or end in a newline. RESIDUAL, visible in the statements: (1) a package whose file '
+           'lacks a final newline (build.py adds a separate newline line; the lexer stack\'s chunking theorem does not '
+           'cover a line without LF followed by it); (2) packages embedded WITHOUT their game loop (the default): that the '
+           're-lexed text is in the dialect, ends in a newline and has the file\'s tokens minus the top-level game-loop '
+           'definitions is only proved relative to a hypothesis (C14_block_tokens_partial; it needs the parser\'s statement '
+           'ranges to agree with the reference description); unconditionally proved is that stripping only removes tokens '
+           '(C14_strip_only_removes). Both residues are checked on every run by the extracted monitor holds_C14. '
+           'C14_structure_bytes / C14_unstripped_block assume a BYTE-faithful echo, which picotool\'s lexer has only for '
+           'sources whose quoted strings are spelled canonically (C06: other strings are re-spelled).')
 CLAIM = dict(
     text=("Theorems (Coq, closed under the global context) about a model of build.py's _evaluate_require / "
           "RequireWalker / _prepend_package_lua, proved for EVERY lexer, parser, walker, name check, file map and load "
@@ -59,8 +58,10 @@ CLAIM = dict(
           "requirer, each a located+parsed+stripped file; cycles terminate), C14_errors* (walker exception / refused "
           "name / missing file => the build returns an error and no output), C14_terminates(_now) (1 + number of "
           "require strings is enough fuel; more fuel never changes the result), C14_dfs_exact (the search computes "
-          "exactly the fuel-free depth-first relation Run). The token-level clause is partial: C14_tokens_partial(_now) "
-          "and C14_block_tokens_partial prove it relative to named hypotheses about the lexer stack (see partial). Tie: correspondence of the extracted model (full lexer+parser+walker stack) with the real "
+          "exactly the fuel-free depth-first relation Run). Token-level clause: C14_tokens_spec (no lexer / chunking / echo "
+          "hypothesis left: uses C14_reference_chunking, C14_echo_predicate_suffices, C14_echo_views, C14_echo_lines_good, "
+          "which rest on C06 / C07's theorems about the lexer model) with per-entry conditions that "
+          "C14_pkg_conditions_unstripped proves for {use_game_loop=true} packages; partial in two named residues (see partial). Tie: correspondence of the extracted model (full lexer+parser+walker stack) with the real "
           "`p8tool build` on generated package graphs (code bytes of OUT.p8, error class), RequireWalker alone on "
           "every generated file, and the extracted instance predicate holds_C14 (Spec/ + Base/ only: reference "
           "tokenizer, token-level require / game-loop / load-path description written from the README) on the real "
